@@ -292,7 +292,11 @@ def s16_nan_sources(ctx):
                 y = y[2]
                 while y[0] == 'cast' or y[0] in ('ref', 'deref'):
                     y = y[2] if y[0] == 'cast' else y[1]
-            if through_int and y[0] == 'call' and y[4].endswith('::max') and any(a[0] == 'const' and isinstance(a[2], int) and a[2] >= 1 for a in y[2]):
+            if through_int and y[0] == 'const' and isinstance(y[2], int) and not isinstance(y[2], bool) and y[2] != 0 and kind in ('Div', 'recip', 'Rem'):
+                cls, why = 'G1', 'non-zero integer constant %d converted to float' % y[2]
+            if through_int and y[0] == 'const' and isinstance(y[2], int) and not isinstance(y[2], bool) and (kind == 'sqrt' and y[2] >= 0 or kind in ('ln', 'log') and y[2] > 0):
+                cls, why = 'G1', 'integer constant %d converted to float' % y[2]
+            if cls is None and through_int and y[0] == 'call' and y[4].endswith('::max') and any(a[0] == 'const' and isinstance(a[2], int) and a[2] >= 1 for a in y[2]):
                 cls, why = 'G2', 'integer operand is max(.., c) with c >= 1'
             chain = _field_chain(y)
             if cls is None and chain and self_adt is not None:
